@@ -1182,7 +1182,7 @@ pub fn run(ctx: &Ctx) -> i32 {
         ctx.tier,
         ctx.seed,
         "exploration",
-        "(a) tokens of generated programs in wild spelling (comments before tokens on a line, multi-line comments, CRLF, non-ASCII, OSCAT headers, one unlexable run - visible junk or an invisible character such as U+FEFF in mid-file, a no-break or zero-width blank, a control character) must tile the source: text == source[span], contiguous except reported P0031 ranges, char boundaries, line = number of LF before the start, column = distance from the line start in ONE unit (bytes, chars or UTF-16) for the whole file; (b) every Id reached by the dsl Visitor carries the file id and a span whose text is its spelling and which is an identifier lexeme of the harness' own lexeme table, and every identifier lexeme is the span of some Id; (c) units with one planted fault (C02 planter): every label lies inside the file on char boundaries and the primary label of the planted fault's diagnostic covers the marker the planter wrote (name-carrying codes: exactly an occurrence of the name; call-site codes: the invocation); for a sample of them the `file:L:C` printed by `ironplcc check` and the range.start of the LSP publishDiagnostics equal the recomputed line / column of that label start; (e) programs broken by a blank / comment at a joint where IEC forbids one or by token mutations: the primary label of the P0002 diagnostic covers exactly the text its message quotes; (f) six texts whose positions exceed 65 535 (line feeds, CRLF, comment lines, blanks / a comment / a string on the line before the fault): tiling in process, `file:L:C` of the command line and range.start of the language server. Non-trivial (a): comment / non-ASCII / CRLF / lexical error present; (c) always. Distinct by text hash.",
+        "(a) tokens of generated programs in wild spelling (comments before tokens on a line, multi-line comments, CRLF, non-ASCII, OSCAT headers, one unlexable run - visible junk or an invisible character such as U+FEFF in mid-file, a no-break or zero-width blank, a control character) must tile the source: text == source[span], contiguous except reported P0031 ranges, char boundaries, line = number of LF before the start, column = distance from the line start in ONE unit (bytes, chars or UTF-16) for the whole file; (b) every Id reached by the dsl Visitor carries the file id and a span whose text is its spelling and which is an identifier lexeme of the harness' own lexeme table, and every identifier lexeme is the span of some Id; (c) units with one planted fault (C02 planter): every label lies inside the file on char boundaries and the primary label of the planted fault's diagnostic covers the marker the planter wrote (name-carrying codes: exactly an occurrence of the name; call-site codes: the invocation); for a sample of them the `file:L:C` printed by `ironplcc check` and the range.start of the LSP publishDiagnostics equal the recomputed line / column of that label start; (e) programs broken by a blank / comment at a joint where IEC forbids one or by token mutations: the primary label of the P0002 diagnostic covers exactly the text its message quotes; (f) six texts whose positions exceed 65 535 (line feeds, CRLF, comment lines, blanks / a comment / a string on the line before the fault): tiling in process, `file:L:C` of the command line and range.start of the language server; (g) name clashes over 49 pairs of declaration forms and (h) alias chains that end nowhere: every label names a file of the set, lies in it on word boundaries, a one-word primary label is the name the description states, and for two documents every range and related location the language server publishes lies in the document it names; (i) all cyclic digraphs on <= 3 nodes and 600 on 4 nodes in C07's three realisations, alone / behind / in front of unrelated declarations / with those in a file of their own: the primary label of P0010 / P0013 covers the name of a declaration that lies on a cycle. Non-trivial (a): comment / non-ASCII / CRLF / lexical error present; (c) always. Distinct by text hash.",
     );
     let gates = ctx.gates_for("C05");
     let off = gates.off_list();
